@@ -322,6 +322,7 @@ def _check_main(run, P):
              "hold one mutable array: where element assignment changes an array in place, "
              "a whole-variable assignment stores a copy (both Python back ends)", minimum=2)
     run.do(_alias_rule, run, P)
+    run.do(_whole_map_reduction, run, P)
 
     run.do(_guard_reads, run, P)
     f = run.do(edges, run, P)
@@ -813,6 +814,36 @@ def _fresh(run, P):
     run.ob("C02.fresh", f, site, ok_add,
            construct="self._seen_var_names.add(name) before returning it",
            why="the same name could be handed out twice")
+
+
+def _whole_map_reduction(run, P):
+    """The readers of a variable stay on record until that variable is overwritten: nothing
+    in _add_statement takes readers out of the sets of *all* variables at once."""
+    f = P.func(f"{CB}._add_statement")
+    n = 0
+    for lp in ast.walk(f.node):
+        if not isinstance(lp, ast.For):
+            continue
+        it = lp.iter
+        whole = isinstance(it, ast.Call) and isinstance(it.func, ast.Attribute) \
+            and it.func.attr in ("values", "items") and dotted(it.func.value) == "self._reader_map"
+        if not whole:
+            continue
+        n += 1
+        tnames = {x.id for x in ast.walk(lp.target) if isinstance(x, ast.Name)}
+        reduces = [x for x in ast.walk(lp) if (isinstance(x, ast.AugAssign) and isinstance(x.op, ast.Sub)
+                                              and dotted(x.target) in tnames)
+                   or (isinstance(x, ast.Call) and isinstance(x.func, ast.Attribute)
+                       and x.func.attr in ("difference_update", "discard", "remove", "clear", "pop")
+                       and dotted(x.func.value) in tnames)]
+        run.ob("C02.maps", f, reduces[0] if reduces else lp, not reduces,
+               construct=f"for {norm(lp.target)} in {norm(it)}: no reader set is reduced in a walk over the "
+                         f"whole reader map",
+               why="a reader r of x that the new statement happens to depend on is still a reader of x: "
+                   "taken off x's record although the statement does not write x, the next writer of x "
+                   "gets no edge to r and an admissible schedule overwrites x before r has read it")
+    run.ob("C02.maps", f, f.node, True,
+           construct=f"_add_statement: {n} walk(s) over the whole reader map examined", why="scan summary")
 
 
 def check(run, P):
